@@ -318,7 +318,8 @@ class Engine:
                     p = file if os.path.isabs(file) else os.path.join(root, file)
                     if os.path.exists(p):
                         try:
-                            src = open(p).read().split('\n')[int(line) - 1]
+                            lines_ = open(p).read().split('\n')
+                            src = lines_[int(line) - 1]
                         except Exception:
                             src = None
                         break
@@ -332,6 +333,17 @@ class Engine:
                             self.alias.setdefault('<%s as %s>::%s' % (ty_short, tr_short, meth), name)
                         else:
                             self.alias.setdefault('%s::%s' % (ty_short, meth), name)
+                    elif '#[derive(' in src:
+                        cm = re.match(r'^.*<impl at [^:]+:\d+:(\d+): \d+:(\d+)>::', name)
+                        tr_short = src[int(cm.group(1)) - 1:int(cm.group(2)) - 1] if cm else ''
+                        ty_short = None
+                        for l2 in lines_[int(line):int(line) + 12]:
+                            tm = re.match(r'\s*(?:pub(?:\([a-z]+\))?\s+)?(?:struct|enum)\s+(\w+)', l2)
+                            if tm:
+                                ty_short = tm.group(1)
+                                break
+                        if tr_short and ty_short:
+                            self.alias.setdefault('<%s as %s>::%s' % (ty_short, tr_short, meth), name)
             if f.params:
                 t0 = f.params[0][1]
                 for pre in ('&mut ', '&', ''):
